@@ -123,6 +123,17 @@ func c07Pairs(tier string) []c07Pair {
 	}
 	add("operator-logic", "F.B && F.I == 1", "F.B || F.I == 1")
 	add("operator-logic", "F.B || F.I == 1", "F.B && F.I == 1")
+	// the sibling IS one operand of the rule's condition (so that operand is shared, and possibly evaluated first by
+	// the sibling) while the other operand fails to evaluate: alone the rule never fires
+	for _, bad := range []string{"Z.I == 0", "K.P.V == 0", "F.Arr[9] == 1", `F.M["zz"] == 1`} {
+		for _, good := range []string{"F.I == 1", "F.B", "F.I2 < 9", "!F.B"} {
+			add("operand-shared-other-fails", bad+" || "+good, good)
+			add("operand-shared-other-fails", bad+" && "+good, good)
+			add("operand-shared-other-fails", good+" || "+bad, good)
+			add("operand-shared-other-fails", good+" && "+bad, good)
+			add("operand-shared-other-fails", "("+bad+") || ("+good+")", good)
+		}
+	}
 	// operand order
 	add("operand-order", "F.I - F.I2", "F.I2 - F.I")
 	add("operand-order", "F.I < F.I2", "F.I2 < F.I")
